@@ -47,7 +47,7 @@ OPNAMES = {
 def strip_ns(s):
     s = re.sub(r"\bImath_3_2::", "", s)
     s = re.sub(r"\bImath::", "", s)
-    s = re.sub(r"\bPyImath::", "Py", s)
+    s = re.sub(r"\bPyImath::", "", s)
     return s
 
 
@@ -464,7 +464,7 @@ class Emitter:
 
     def is_record(self, qt):
         n = strip_ns(norm_type(self.strip_cv(self.resolve_typedef(self.strip_cv(self.unref(qt))))))
-        return n in self.ast.records and n not in self.opaque
+        return (n in self.ast.records and n not in self.opaque) or n in self.opaque
 
     def need_struct(self, n):
         cname = cident(n)
@@ -929,7 +929,16 @@ class FuncEmitter:
         e = self.skip(s)
         if e.get("kind") == "CXXThrowExpr":
             return pad + self.throw(e)
+        if e.get("kind") in ("CXXFunctionalCastExpr", "CXXConstructExpr", "CXXTemporaryObjectExpr"):
+            tq = self.em.strip_cv(e.get("type", {}).get("desugaredQualType") or e.get("type", {}).get("qualType", ""))
+            if tq in EXC_KINDS:
+                # an exception object constructed and discarded (no throw): no effect
+                return pad + "; /* temporary %s constructed and discarded - NOT thrown */" % tq
         txt = self.rv(e, discard=True)
+        if "cxx2c_throw_error_already_set()" in txt:
+            # boost::python::throw_error_already_set() never returns: it throws
+            self.throws = True
+            return pad + "{ " + txt + "; " + self.zero_ret() + " }"
         return pad + txt + ";" + self.throwchk()
 
     def stmt_block(self, s, ind):
@@ -1399,8 +1408,15 @@ class FuncEmitter:
             if e.get("kind") not in ("CXXConstructExpr", "CXXTemporaryObjectExpr"):
                 return "(*%s = %s)" % (target_ptr, self.rv(e))
         args = [a for a in e.get("inner", []) or []]
-        ctor = self.ctor_of(e)
         qt = e["type"].get("desugaredQualType") or e["type"]["qualType"]
+        if strip_ns(norm_type(self.em.strip_cv(qt))) in self.em.opaque:
+            # library type modelled by a plain C struct: default construction zeroes, copy construction copies
+            if not args:
+                return "memset(%s, 0, sizeof(*%s))" % (target_ptr, target_ptr)
+            if len(args) == 1:
+                return "(*%s = %s)" % (target_ptr, self.rv(args[0]))
+            self.fail("opaque type %s constructed with %d arguments" % (qt, len(args)))
+        ctor = self.ctor_of(e)
         if ctor is None:
             self.fail("constructor not found for %s / %s" % (qt, e.get("ctorType")))
         trivial_copy = (ctor.get("isImplicit") or ctor.get("explicitlyDefaulted"))
